@@ -4,11 +4,11 @@ import cpu_props
 ID = 'C03'
 LEAN_MODULES = ['Py65.Props.C03']
 NAMESPACES = ['Py65.Props.C03', 'Py65.Proofs.H']
-EXPECTED_THEOREMS = ['Py65.Props.C03.C03_partial']
+EXPECTED_THEOREMS = ['Py65.Props.C03.C03_full', 'Py65.Props.C03.C03_partial']
 TRUSTED = ['Spec.Cpu / Spec.Isa (hand-written programming model, the oracle)',
            'translator harness/py2lean.py (Python subset -> Lean), validated on every run by exact-state comparison of the generated model with the real device',
            'Py.land/lor/lxor definitions (characterised bit-wise by theorems in Proofs/PyIntLemmas.lean, differentially tested)']
-ASSUMPTIONS = ['C03_partial covers the opcodes not listed in Py65.Props.C03.unproved (ADC/SBC and ROL/ROR handler theorems are still open; those opcodes are covered by the Spec-vs-device differential only)',
+ASSUMPTIONS = ['C03_full: every one of the 151 declared opcodes is proved (Py65.Props.C03.unproved = []); ADC/SBC under the binary-mode hypothesis (decimal mode is C04), JSR under the no-self-overwrite hypothesis the property itself excludes',
                'JSR: the two stack cells written are not the instruction\'s own operand bytes (the property\'s self-overwrite exclusion)',
                'model state: registers in the byte, PC in the address space, every cell in the byte (WF)']
 LEVEL = 'proof'
